@@ -63,4 +63,9 @@ BUILT = {
   level='exploration',
   text='Signatures with register-exhausting fillers, scalars of all classes, by-value struct/union parameters and returns of every eightbyte class mix (incl. bit-fields, nested, arrays), long double, variadic walks (incl. named aggregates and stack-passed named parameters), calls as arguments and under pending temporaries; every link-up must log exactly what the all-gcc build logs, with rsp 16-aligned at the call and rbx/rbp/r12-r15 preserved.',
   note='trusts gcc/clang psABI conformance; D17, D18, D73 recorded and excluded by construction (counted)'),
+ 'C13': dict(
+  technique='mutation-based fuzzing driven by Hypothesis (shrinkable edit lists): token-, line-, bracket- and byte-level mutants of repository tests, compiler sources, per-diagnostic-site triggers, valid programs and freshly generated preprocessor programs; out-of-process cc1 under rlimits; oracle on wait status, assembler acceptance and diagnostic location',
+  level='exploration',
+  text='About 90 k mutants per quick run (2 M thorough) are fed to `chibicc -cc1` directly; each must yield assembly that `as` accepts or exit status 1 with a `file:line:` diagnostic inside the input; signals, assertions, internal errors, other statuses, silence and confirmed hangs are violations. All 97 per-site triggers and a set of valid programs are also run unmutated (valid ones must be accepted).',
+  note='neighbourhood-of-seeds exploration, not all byte strings; inline asm excluded; D34 (huge aggregate arrays with initializers exhaust memory) recorded and excluded by input shape'),
 }
